@@ -1,0 +1,131 @@
+//go:build verif
+
+// Contracts for the gowp verifier (/verif). Comment-only file: compiled only with -tags verif and
+// contributes no code either way.
+
+package paymentsdb
+
+//@ func (ps PaymentStatus) initializable
+//@   props C16
+//@   ensures result == nil <==> ps == StatusFailed
+//@   ensures ps == StatusInitiated ==> result == ErrPaymentExists
+//@   ensures ps == StatusInFlight  ==> result == ErrPaymentInFlight
+//@   ensures ps == StatusSucceeded ==> result == ErrAlreadyPaid
+//@   modifies nothing
+//@
+//@ func (ps PaymentStatus) removable
+//@   props C16
+//@   ensures result == nil <==> (ps == StatusInitiated || ps == StatusSucceeded || ps == StatusFailed)
+//@   ensures ps == StatusInFlight ==> result == ErrPaymentInFlight
+//@   modifies nothing
+//@
+//@ func (ps PaymentStatus) updatable
+//@   props C16
+//@   ensures result == nil <==> (ps == StatusInitiated || ps == StatusInFlight)
+//@   ensures ps == StatusSucceeded ==> result == ErrPaymentAlreadySucceeded
+//@   ensures ps == StatusFailed    ==> result == ErrPaymentAlreadyFailed
+//@   modifies nothing
+//@
+//@ func decidePaymentStatus
+//@   props C16
+//@   let anyInflight = exists(j, 0, len(htlcs), htlcs[j].Failure == nil && htlcs[j].Settle == nil)
+//@   let anySettled  = exists(j, 0, len(htlcs), htlcs[j].Failure == nil && htlcs[j].Settle != nil)
+//@   let anyFailed   = exists(j, 0, len(htlcs), htlcs[j].Failure != nil)
+//@   ensures result1 == nil
+//@   ensures anyInflight ==> result0 == StatusInFlight
+//@   ensures !anyInflight && anySettled ==> result0 == StatusSucceeded
+//@   ensures !anyInflight && !anySettled && reason != nil ==> result0 == StatusFailed
+//@   ensures !anyInflight && !anySettled && reason == nil && anyFailed ==> result0 == StatusInFlight
+//@   ensures !anyInflight && !anySettled && reason == nil && !anyFailed ==> result0 == StatusInitiated
+//@   ensures anySettled ==> result0 != StatusFailed
+//@   loop 0 invariant -1 <= rangeindex && rangeindex < len(htlcs)
+//@   loop 0 invariant inflight    <==> exists(j, 0, rangeindex+1, htlcs[j].Failure == nil && htlcs[j].Settle == nil)
+//@   loop 0 invariant htlcSettled <==> exists(j, 0, rangeindex+1, htlcs[j].Failure == nil && htlcs[j].Settle != nil)
+//@   loop 0 invariant htlcFailed  <==> exists(j, 0, rangeindex+1, htlcs[j].Failure != nil)
+//@   modifies nothing
+//@
+//@ func (m *MPPayment) Registrable
+//@   props C16
+//@   ensures result == nil <==> (m.Status == StatusInitiated ||
+//@           (m.Status == StatusInFlight && !m.State.HasSettledHTLC && !m.State.PaymentFailed))
+//@   ensures m.Status == StatusSucceeded ==> result == ErrPaymentAlreadySucceeded
+//@   ensures m.Status == StatusFailed ==> result == ErrPaymentAlreadyFailed
+//@   ensures m.Status == StatusInFlight && m.State.HasSettledHTLC ==> result == ErrPaymentPendingSettled
+//@   modifies nothing
+//@
+//@ extern func (*route.Route) ReceiverAmt
+//@   ensures result <= 1<<62
+//@
+//@ func (m *MPPayment) SentAmt
+//@   props C16
+//@   trusted
+//@   ensures result0 <= 1<<62
+//@   modifies nothing
+//@
+//@ func verifyAttempt
+//@   props C16
+//@   loop * havoc
+//@   site return nil: assert sentAmt + amt <= payment.Info.Value
+//@   nowrap
+//@
+//@ func (m *MPPayment) setState
+//@   props C16
+//@   loop * havoc
+//@   site store MPPayment.Status: assert value == retn(decidePaymentStatus, 0) && retn(decidePaymentStatus, 1) == nil &&
+//@        retn(SentAmt, 0) <= m.Info.Value
+//@   site store MPPaymentState.RemainingAmt:   assert value == m.Info.Value - retn(SentAmt, 0) && retn(SentAmt, 0) <= m.Info.Value
+//@   site store MPPaymentState.HasSettledHTLC: assert value == (retn(TerminalInfo, 0) != nil)
+//@   site store MPPaymentState.PaymentFailed:  assert value == (retn(TerminalInfo, 1) != nil)
+//@   site call decidePaymentStatus: assert arg(htlcs) == m.HTLCs && arg(reason) == m.FailureReason
+//@   nowrap
+//@
+//@ func (p *KVStore) InitPayment$1
+//@   props C16
+//@   loop * havoc
+//@   site call Put: assert retn(fetchPaymentStatus, 1) == nil ==> ret(initializable) == nil
+//@   site call createPaymentIndexEntry: assert retn(fetchPaymentStatus, 1) == nil ==> ret(initializable) == nil
+//@   site call initializable: assert arg(ps) == retn(fetchPaymentStatus, 0)
+//@
+//@ func (p *KVStore) RegisterAttempt$1
+//@   props C16
+//@   loop * havoc
+//@   site call Put: assert ret(Registrable) == nil && ret(verifyAttempt) == nil
+//@   site call Registrable: assert arg(m) == retn(fetchPayment, 0) && retn(fetchPayment, 1) == nil
+//@   site call verifyAttempt: assert arg(payment) == retn(fetchPayment, 0) && arg(attempt) == attempt
+//@
+//@ func (p *KVStore) updateHtlcKey$1
+//@   props C16
+//@   loop * havoc
+//@   site call Put: assert ret(updatable) == nil && ret(Get, 0) != nil && ret(Get, 1) == nil && ret(Get, 2) == nil
+//@   site call updatable: assert arg(ps) == retn(fetchPayment, 0).Status && retn(fetchPayment, 1) == nil
+//@
+//@ func (s *SQLStore) RegisterAttempt$1
+//@   props C16
+//@   loop * havoc
+//@   site call InsertHtlcAttempt: assert ret(Registrable) == nil && ret(verifyAttempt) == nil
+//@   site call Registrable: assert arg(m) == retn(fetchPaymentWithCompleteData, 0) && retn(fetchPaymentWithCompleteData, 1) == nil
+//@   site call verifyAttempt: assert arg(payment) == retn(fetchPaymentWithCompleteData, 0) && arg(attempt) == attempt
+//@
+//@ func (s *SQLStore) InitPayment$1
+//@   props C16
+//@   loop * havoc
+//@   site call InsertPayment: assert retn(FetchPayment, 1) == nil ==> (ret(initializable) == nil && retn(computePaymentStatusFromDB, 1) == nil)
+//@   site call DeletePayment: assert ret(initializable) == nil && retn(computePaymentStatusFromDB, 1) == nil
+//@   site call initializable: assert arg(ps) == retn(computePaymentStatusFromDB, 0)
+//@
+//@ func (s *SQLStore) SettleAttempt$1
+//@   props C16
+//@   loop * havoc
+//@   site call SettleAttempt: assert ret(updatable) == nil
+//@   site call updatable: assert arg(ps) == retn(computePaymentStatusFromDB, 0) && retn(computePaymentStatusFromDB, 1) == nil
+//@
+//@ func (s *SQLStore) FailAttempt$1
+//@   props C16
+//@   loop * havoc
+//@   site call FailAttempt: assert ret(updatable) == nil
+//@   site call updatable: assert arg(ps) == retn(computePaymentStatusFromDB, 0) && retn(computePaymentStatusFromDB, 1) == nil
+//@
+//@ func computePaymentStatusFromResolutions
+//@   props C16
+//@   loop * havoc
+//@   site call decidePaymentStatus: assert arg(htlcs) == htlcs && (failReason.Valid <==> arg(reason) != nil)
